@@ -47,6 +47,8 @@ static uint64_t rng_state = 88172645463325252ull;
 static uint64_t rnd() { rng_state ^= rng_state << 13; rng_state ^= rng_state >> 7; rng_state ^= rng_state << 17; return rng_state; }
 
 static bool g_avx512 = false, g_avx = false;
+// registers that must hold a pointer into the scratch buffer: offset into g_scratch or -1 (implicit [zsi] / [zdi] operands)
+static int g_ptr_off[16];
 
 typedef void (*TestFn)(const State* in, State* out);
 
@@ -106,9 +108,8 @@ struct Report {
   uint64_t vec_w[32], vec_e[32], vec_r[32];
   uint8_t k_w[8], k_e[8], k_r[8];
   uint64_t flags_w, flags_r;   // RFLAGS bits
-  uint64_t mem_w, mem_r;       // byte masks relative to the memory operand (<= 64 bytes)
-  bool has_mem;
-  uint32_t mem_size;
+  struct Win { int off; uint32_t size; uint64_t w, r; } win[2];   // memory operands as windows of the scratch buffer (byte masks <= 64 bytes)
+  int nwin;
 };
 
 static uint64_t rflags_of(uint32_t f) {
@@ -150,21 +151,38 @@ static bool project(const InstRWInfo& rw, const Operand_* ops, size_t nops, bool
       }
     }
     else if (ops[i].is_mem()) {
-      if (R.has_mem) { why = "two memory operands"; return false; }
-      R.has_mem = true;
-      R.mem_size = ops[i].x86_rm_size();
-      if (R.mem_size == 0 || R.mem_size > 64) { why = "memory size"; return false; }
-      uint64_t full = R.mem_size >= 64 ? ~uint64_t(0) : ((uint64_t(1) << R.mem_size) - 1);
-      if (Support::test(o._op_flags, OpRWFlags::kWrite)) R.mem_w = (o._write_byte_mask | o._extend_byte_mask) & full;
-      if (Support::test(o._op_flags, OpRWFlags::kRead)) R.mem_r = o._read_byte_mask & full;
+      if (R.nwin >= 2) { why = "three memory operands"; return false; }
+      const x86::Mem& m = ops[i].as<x86::Mem>();
+      Report::Win& W = R.win[R.nwin++];
+      W.size = ops[i].x86_rm_size();
+      if (W.size == 0 || W.size > 64) { why = "memory size"; return false; }
+      uint32_t base = m.base_id();
+      W.off = base == 14 ? kMemDisp : g_ptr_off[base & 15];
+      if (W.off < 0) { why = "memory base"; return false; }
+      uint64_t full = W.size >= 64 ? ~uint64_t(0) : ((uint64_t(1) << W.size) - 1);
+      W.w = Support::test(o._op_flags, OpRWFlags::kWrite) ? ((o._write_byte_mask | o._extend_byte_mask) & full) : 0;
+      W.r = Support::test(o._op_flags, OpRWFlags::kRead) ? (o._read_byte_mask & full) : 0;
+      if (base != 14) {      // implicit base register: read when reported kMemBaseRead, written (whole register) when reported kMemBaseWrite
+        if (Support::test(o._op_flags, OpRWFlags::kMemBaseRead)) R.gp_r[base] = 0xFF;
+        if (Support::test(o._op_flags, OpRWFlags::kMemBaseWrite)) R.gp_w[base] = 0xFF;
+      }
     }
   }
   return true;
 }
 
+static bool win_bit(const Report& R, int j, bool write) {
+  for (int k = 0; k < R.nwin; k++) {
+    const Report::Win& W = R.win[k];
+    if (j >= W.off && j < W.off + int(W.size) && (((write ? W.w : W.r) >> (j - W.off)) & 1)) return true;
+  }
+  return false;
+}
+
 static void random_state(State& s) {
-  for (int i = 0; i < 16; i++) s.gp[i] = (rnd() & 3) == 0 ? (rnd() & 0xFF) : rnd();
+  for (int i = 0; i < 16; i++) { uint64_t sel = rnd() & 7; s.gp[i] = sel == 0 ? 0 : (sel <= 2 ? (rnd() & 0xFF) : rnd()); }   // zero and small values are frequent (shift counts, bsf/bsr sources)
   s.gp[14] = uint64_t(uintptr_t(g_scratch));
+  for (int i = 0; i < 16; i++) if (g_ptr_off[i] >= 0) s.gp[i] = uint64_t(uintptr_t(g_scratch)) + uint64_t(g_ptr_off[i]);
   s.flags = 0x202 | (rnd() & kStatus);
   for (int i = 0; i < 8; i++) s.k[i] = rnd();
   for (int i = 0; i < 32; i++) for (int j = 0; j < 64; j += 8) { uint64_t v = rnd(); memcpy(&s.vec[i][j], &v, 8); }
@@ -176,7 +194,7 @@ static void vary_unread(const State& a, const Report& R, State& b) {
   State r; random_state(r);
   b = a;
   for (int i = 0; i < 16; i++) {
-    if (i == 4 || i == 14 || i == 15) continue;
+    if (i == 4 || i == 14 || i == 15 || g_ptr_off[i] >= 0) continue;
     for (int j = 0; j < 8; j++) if (!((R.gp_r[i] >> j) & 1)) ((uint8_t*)&b.gp[i])[j] = ((uint8_t*)&r.gp[i])[j];
   }
   for (int i = 0; i < 8; i++) for (int j = 0; j < 8; j++) if (!((R.k_r[i] >> j) & 1)) ((uint8_t*)&b.k[i])[j] = ((uint8_t*)&r.k[i])[j];
@@ -184,8 +202,7 @@ static void vary_unread(const State& a, const Report& R, State& b) {
   for (int i = 0; i < nv; i++) for (int j = 0; j < 64; j++) if (!((R.vec_r[i] >> j) & 1)) b.vec[i][j] = r.vec[i][j];
   b.flags = (a.flags & ~kStatus) | (a.flags & R.flags_r & kStatus) | (r.flags & kStatus & ~R.flags_r);
   for (int j = 0; j < 256; j++) {
-    bool rd = R.has_mem && j >= kMemDisp && j < kMemDisp + int(R.mem_size) && ((R.mem_r >> (j - kMemDisp)) & 1);
-    if (!rd) b.mem[j] = r.mem[j];
+    if (!win_bit(R, j, false)) b.mem[j] = r.mem[j];
   }
 }
 
@@ -232,7 +249,7 @@ static void check_a(const State& s, const State& t, const Report& R, std::string
     if (ch) { snprintf(buf, sizeof buf, "rflags:%#" PRIx64 "-changed-not-reported(reported=%#" PRIx64 ")", ch, R.flags_w); msg = buf; }
   }
   for (int j = 0; j < 256 && msg.empty(); j++) {
-    bool w = R.has_mem && j >= kMemDisp && j < kMemDisp + int(R.mem_size) && ((R.mem_w >> (j - kMemDisp)) & 1);
+    bool w = win_bit(R, j, true);
     if (s.mem[j] != t.mem[j] && !w) { snprintf(buf, sizeof buf, "mem[%d]:%02x->%02x-not-reported", j - kMemDisp, s.mem[j], t.mem[j]); msg = buf; }
   }
 }
@@ -259,10 +276,8 @@ static void check_b(const State& t1, const State& t2, const Report& R, uint64_t 
     uint64_t d = (t1.flags ^ t2.flags) & R.flags_w & kStatus & ~undefined_flags;
     if (d) { snprintf(buf, sizeof buf, "rflags:%#" PRIx64 "-depend-on-unreported-read", d); msg = buf; }
   }
-  if (msg.empty() && R.has_mem)
-    for (uint32_t j = 0; j < R.mem_size; j++)
-      if ((R.mem_w >> j) & 1)
-        if (t1.mem[kMemDisp + j] != t2.mem[kMemDisp + j]) { snprintf(buf, sizeof buf, "mem[%u]-depends-on-unreported-read", j); msg = buf; break; }
+  for (int j = 0; j < 256 && msg.empty(); j++)
+    if (win_bit(R, j, true) && t1.mem[j] != t2.mem[j]) { snprintf(buf, sizeof buf, "mem[%d]-depends-on-unreported-read", j - kMemDisp); msg = buf; }
 }
 
 int main() {
@@ -289,6 +304,8 @@ int main() {
     rng_state = seed * 0x9E3779B97F4A7C15ull + 0x1234567;
     if (!rng_state) rng_state = 1;
     Operand_ ops[6];
+    for (int i = 0; i < 16; i++) g_ptr_off[i] = -1;
+    int nptr = 0;
     bool ok = true;
     std::string why;
     for (unsigned i = 0; i < nops && ok; i++) {
@@ -300,8 +317,16 @@ int main() {
         ops[i] = Reg(RegUtils::signature_of(RegType(rt_)), rid);
       } else if (t[0] == 'm') {
         unsigned sz; int b, x;
-        if (sscanf(t.c_str(), "m%u:%d:%d", &sz, &b, &x) != 3 || b != 2 || x != 0) { ok = false; why = "addressing form"; break; }
+        if (sscanf(t.c_str(), "m%u:%d:%d", &sz, &b, &x) != 3 || x != 0 || (b != 2 && b < 100)) { ok = false; why = "addressing form"; break; }
         x86::Mem m = x86::ptr(x86::r14, kMemDisp);
+        if (b >= 100) {      // implicit [zsi] / [zdi] / ... operand: the register itself points into the scratch buffer
+          int rid = (b - 100) % 100;
+          if (rid == 4 || rid >= 14) { ok = false; why = "addressing form"; break; }
+          if (g_ptr_off[rid] < 0) g_ptr_off[rid] = 64 + 64 * nptr++;
+          if (nptr > 2) { ok = false; why = "addressing form"; break; }
+          m = x86::ptr(x86::gpq(uint32_t(rid)));
+          if ((b - 100) / 100) m.set_segment(x86::SReg(uint32_t((b - 100) / 100)));
+        }
         m.set_size(sz);
         ops[i] = m;
       } else if (t[0] == 'i') {
